@@ -80,6 +80,11 @@ func NewEpochBitmapAllocator(config EpochBitmapConfig) (*EpochBitmapAllocator, e
 	if gracePeriod == 0 {
 		gracePeriod = 1 // Default: 1 epoch grace period
 	}
+	if gracePeriod > 2 {
+		// A 2-bit generation can only tell ages 0..3 apart; a lease must reach
+		// age gracePeriod+1 to be recognised as expired.
+		return nil, fmt.Errorf("grace period %d not representable with 2-bit generations (max 2)", gracePeriod)
+	}
 
 	return &EpochBitmapAllocator{
 		baseIP:         ipNet.IP.To4(),
@@ -109,7 +114,6 @@ func (a *EpochBitmapAllocator) Allocate(ctx context.Context, subscriberID string
 	}
 
 	// Find a free slot
-	threshold := a.freeThreshold()
 
 	// Start from hint for faster allocation
 	for i := uint64(0); i < a.totalIPs; i++ {
@@ -120,8 +124,11 @@ func (a *EpochBitmapAllocator) Allocate(ctx context.Context, subscriberID string
 			continue
 		}
 
-		gen := a.getGeneration(idx)
-		if a.isGenerationFree(gen, threshold) {
+		// A slot is free iff no subscriber is recorded for it. Release and
+		// AdvanceEpoch remove the record as soon as a lease ends, so this is
+		// exact; the 2-bit generation alone is not (it wraps every 4 epochs
+		// and would make a long-expired or never-used slot look active again).
+		if _, taken := a.ipToSubscriber[idx]; !taken {
 			// Found free slot - allocate it
 			a.setGeneration(idx, a.currentGeneration())
 			a.subscribers[subscriberID] = idx
@@ -228,14 +235,18 @@ func (a *EpochBitmapAllocator) AdvanceEpoch() uint64 {
 
 	a.currentEpoch++
 
-	// Clean up expired subscriber mappings (lazy cleanup)
-	// This is optional but helps keep maps small
+	// Remove expired subscriber mappings. This is what frees their slots:
+	// Allocate and Stats treat a slot as taken iff a subscriber is recorded.
 	threshold := a.freeThreshold()
 	for subscriberID, idx := range a.subscribers {
 		gen := a.getGeneration(idx)
 		if a.isGenerationFree(gen, threshold) {
 			delete(a.subscribers, subscriberID)
 			delete(a.ipToSubscriber, idx)
+			// Like Release: reuse reclaimed slots first
+			if idx < a.nextFreeHint {
+				a.nextFreeHint = idx
+			}
 		}
 	}
 
@@ -254,17 +265,14 @@ func (a *EpochBitmapAllocator) Stats() (allocated, total uint64, utilization flo
 	a.mu.RLock()
 	defer a.mu.RUnlock()
 
-	// Count active allocations (not expired)
-	threshold := a.freeThreshold()
-	active := uint64(0)
-	for idx := uint64(1); idx < a.totalIPs-1; idx++ {
-		gen := a.getGeneration(idx)
-		if !a.isGenerationFree(gen, threshold) {
-			active++
-		}
-	}
+	// Active allocations: expired leases are removed by AdvanceEpoch, released
+	// ones by Release, so every recorded subscriber is active.
+	active := uint64(len(a.ipToSubscriber))
 
 	// Total usable IPs (excluding network and broadcast)
+	if a.totalIPs <= 2 {
+		return active, 0, 0
+	}
 	usable := a.totalIPs - 2
 
 	return active, usable, float64(active) / float64(usable)
